@@ -129,3 +129,11 @@ Theorem C06_popfirst_refuted : exists ls l i ok err f, is_reply_for i f = false 
   consume_popfirst [(l, i, ok, err)] ls f = [] /\ consume [(l, i, ok, err)] ls f = [(l, i, ok, err)].
 Proof. exact popfirst_refuted. Qed.
 Print Assumptions C06_popfirst_refuted.
+
+(* routing never depends on what travelled before, in either direction: a stanza that is not a reply (anything but
+   an iq of type result / error) is treated the same on a stack with ANY set of pending requests as on a fresh one;
+   sending never consults the registry at all (stack_send has no registry argument) *)
+Theorem C06_routing_history_independent : forall v c ax st f, is_reply f = false ->
+  stack_recv v c ax st f = stack_recv v c ax [] f.
+Proof. exact recv_history_independent_thm. Qed.
+Print Assumptions C06_routing_history_independent.
